@@ -86,6 +86,20 @@ def check_net(netc):
             raise InvalidScenario("partition groups")
 
 
+def shift_faults(z, faults):
+    """Fault windows are given relative to the start of the simulation; FaultDriver wants absolute seconds."""
+    if not z.t0_ns:
+        return faults
+    out = []
+    for f in faults:
+        g = dict(f)
+        g["start"] = z.abs_s(f["start"])
+        if f.get("end") is not None:
+            g["end"] = z.abs_s(f["end"])
+        out.append(g)
+    return out
+
+
 def mesh(z, names, netc, factory):
     """Real Network + one chaos NetworkLink per directed pair; factory(name, net) -> node."""
     check_net(netc)
@@ -97,10 +111,10 @@ def mesh(z, names, netc, factory):
     z.add(net, *nodes)
     for l in links.values():
         z.add(l)
-    faults = [f for f in netc.get("faults", [])
-              if all(i < len(nodes) for i in (f.get("a", []) + f.get("b", []) + [f.get("node", 0), f.get("src", 0), f.get("dst", 0)]))]
+    faults = shift_faults(z, [f for f in netc.get("faults", [])
+                              if all(i < len(nodes) for i in (f.get("a", []) + f.get("b", []) + [f.get("node", 0), f.get("src", 0), f.get("dst", 0)]))])
     fd = chaosnet.FaultDriver(net, nodes, links, faults)
-    z.after_init(lambda: fd.events())
+    z.after_init(lambda: z.mark_harness(fd.events()))
     z.fault_driver = fd
     z.links = links
     return net, nodes, links
@@ -487,9 +501,9 @@ def _chain():
             net.add_link(by[a], by[b], link)
             z.add(link)
         z.add(net, *nodes)
-        fd = chaosnet.FaultDriver(net, nodes, links, [f for f in c["net"].get("faults", [])
-                                                      if all(i < n for i in (f.get("a", []) + f.get("b", []) + [f.get("node", 0), f.get("src", 0), f.get("dst", 0)]))])
-        z.after_init(lambda: fd.events())
+        fd = chaosnet.FaultDriver(net, nodes, links, shift_faults(z, [f for f in c["net"].get("faults", [])
+                                                      if all(i < n for i in (f.get("a", []) + f.get("b", []) + [f.get("node", 0), f.get("src", 0), f.get("dst", 0)]))]))
+        z.after_init(lambda: z.mark_harness(fd.events()))
         z.fault_driver, z.links = fd, links
         repl_feed(z, c, nodes, lambda i, kind: nodes[0] if kind == "w" else (nodes[i % n] if c["craq"] else nodes[-1]))
     return gen, build
@@ -774,7 +788,7 @@ def _pipeline():
             elif kind == "conveyor":
                 e = F.ConveyorBelt(nm, downstream=nxt, transit_time=t, capacity=0)
             elif kind == "gate":
-                e = F.GateController(nm, downstream=nxt, schedule=[(t2, t2 * 3), (t2 * 5, t2 * 6)], initially_open=bool(n % 2))
+                e = F.GateController(nm, downstream=nxt, schedule=[(z.abs_s(t2), z.abs_s(t2 * 3)), (z.abs_s(t2 * 5), z.abs_s(t2 * 6))], initially_open=bool(n % 2))
                 z.after_init(lambda e=e: e.start_events())
             elif kind == "batch":
                 e = F.BatchProcessor(nm, downstream=nxt, batch_size=n, process_time=t, timeout_s=t2)
@@ -819,7 +833,7 @@ def _pipeline():
                 z.add(d)
                 e = q
             elif kind == "shifted":
-                e = F.ShiftedServer(nm, schedule=F.ShiftSchedule([F.Shift(0.0, 1.0, n), F.Shift(1.0, 64.0, 1)], default_capacity=1),
+                e = F.ShiftedServer(nm, schedule=F.ShiftSchedule([F.Shift(z.abs_s(0.0), z.abs_s(1.0), n), F.Shift(z.abs_s(1.0), z.abs_s(64.0), 1)], default_capacity=1),
                                     service_time=t, downstream=nxt)
             elif kind == "splitmerge":
                 e = F.SplitMerge(nm, targets=[z.svc(nm + "_a", [t]), z.svc(nm + "_b", [t2])], downstream=nxt)
